@@ -75,8 +75,8 @@ Proof. vm_compute. reflexivity. Qed.
 
    Fragment (model/ScalarFrag.v, model/VarProg.v): programs over variables - any number of declarations
    `x := e`, at the top level and inside blocks (a variable declared in a block is visible until the block ends; the
-   compiler gives the d-th declaration of the program text the global slot d), assignments `x = e`, `x += e` (also `-=` `*=` `/=`), `x++`, `x--`, expression statements, conditionals `if c { ... } else { ... }` / `if c { ... }` and condition loops
-   `for c { ... }` (with `break` and `continue`) whose blocks are again lists of declarations, assignments, expression statements,
+   compiler gives the d-th declaration of the program text the global slot d), assignments `x = e`, `x += e` (also `-=` `*=` `/=`), `x++`, `x--`, expression statements, conditionals `if c { ... } else { ... }` / `if c { ... }`, condition loops
+   `for c { ... }` and three-clause loops `for x := e; c; x++ { ... }` (with `break` and `continue`) whose blocks are again lists of declarations, assignments, expression statements,
    conditionals and loops, nested to any depth -, whose expressions are built from integer / boolean / nil / string literals, variables visible
    at that point, prefix - and !, the arithmetic and comparison operators (on integers and strings), short-circuit && and
    ||, and the conditional, at any nesting.  For the fragment, the emitted code ([cexp], [pcode]) and the source-level
@@ -263,6 +263,30 @@ Example C01_var_program_block_example :
                      match VM.run 500 c tabs 4 nil with RVal (VM.VInt z) _ => z = 10%Z | _ => False end
   | inl _ => False
   end /\ fst (Sem.run 10 (embed_stmts ex_names4 0 nil ex_bprog)) = Sem.OVal (Sem.VInt 10).
+Proof.
+  split; [vm_compute; reflexivity|]. split; [vm_compute; reflexivity|]. split; [vm_compute; reflexivity|].
+  split; vm_compute; [split; reflexivity|reflexivity].
+Qed.
+
+(* ... and with a three-clause loop (slots: a 0, i 1, t 2):
+     a := 0
+     for i := 0; i < 5; i++ { if i == 3 { continue }; if i == 4 { break }; a += i; t := a; t }
+     a                                                                                         (= 3) *)
+Definition ex_names3 : list (list N) := ((97 :: nil) :: (105 :: nil) :: (116 :: nil) :: nil)%N.
+Definition ex_fprog : list stmt :=
+  (SDecl (SInt 0) ::
+   SFor (SInt 0) (SBin CLt (SVar 1) (SInt 5)) (SInc 1 true)
+     (SIf1 (SBin CEq (SVar 1) (SInt 3)) (SContinue :: nil) :: SIf1 (SBin CEq (SVar 1) (SInt 4)) (SBreak :: nil) ::
+      SSetOp 0 BAdd (SVar 1) :: SDecl (SVar 0) :: SExpr (SVar 2) :: nil) ::
+   SExpr (SVar 0) :: nil)%list.
+Example C01_var_program_for_example :
+  wf_stmts false 0 ex_fprog = true /\ ndecls ex_fprog = 3%nat /\
+  option_map top_result (run_stmts 8 nil ex_fprog ScalarFrag.VNil) = Some (inl (ScalarFrag.VInt 3)) /\
+  match compile_program 10 nil (embed_stmts ex_names3 0 nil ex_fprog) with
+  | inr (c, tabs) => c = Code main_id main_id false 0 (fst (pcode ex_fprog)) (snd (pcode ex_fprog)) nil nil nil /\
+                     match VM.run 500 c tabs 3 nil with RVal (VM.VInt z) _ => z = 3%Z | _ => False end
+  | inl _ => False
+  end /\ fst (Sem.run 10 (embed_stmts ex_names3 0 nil ex_fprog)) = Sem.OVal (Sem.VInt 3).
 Proof.
   split; [vm_compute; reflexivity|]. split; [vm_compute; reflexivity|]. split; [vm_compute; reflexivity|].
   split; vm_compute; [split; reflexivity|reflexivity].
